@@ -29,8 +29,8 @@ TICK = 1024
 
 def common_installation(rng: random.Random):
     """-> (inst4, inst5) describing the same installation"""
-    n_acs = rng.choice([1, 1, 2, 3])
-    n_z = rng.choice([1, 2, 3, 5, 8])
+    n_acs = rng.choice([1, 1, 2, 3, 4])
+    n_z = rng.choice([1, 2, 3, 5, 8, 16])
     cuts = sorted(rng.choice(range(n_z + 1)) for _ in range(n_acs - 1))
     bounds = [0] + cuts + [n_z]
     acs4, acs5 = [], []
@@ -57,7 +57,7 @@ def common_ac_status(i4, i5, rng, n):
     fan = rng.choice(["AUTO", "QUIET", "LOW", "MEDIUM", "HIGH", "POWERFUL", "TURBO"])
     spill, timer = rng.random() < 0.5, rng.random() < 0.5
     sp = rng.randrange(10, 36)
-    temp = rng.randrange(-100, 500) / 10.0
+    temp = rng.choice([-50.0, 0.0, 150.0]) if rng.random() < 0.15 else rng.randrange(-100, 500) / 10.0
     err = rng.choice([0, 0, 5])
     a = s4.AcStatusData(n, s4.AcPowerState.ON if on else s4.AcPowerState.OFF, s4.AcMode[mode], s4.AcFanSpeed[fan], spill, timer, sp, temp, err)
     b = s5.AcStatusData(n, s5.AcPowerState.ON if on else s5.AcPowerState.OFF, s5.AcMode[mode], s5.AcFanSpeed[fan], False, False, spill, timer,
@@ -71,8 +71,8 @@ def common_zone_status(i4, i5, rng, z):
     me = rng.choice(["DAMPER", "TEMPERATURE"])
     sensor = rng.random() < 0.6
     bat = rng.choice(["NORMAL", "LOW"])
-    temp = (rng.randrange(-100, 500) / 10.0 if rng.random() < 0.8 else None) if sensor else None
-    damper = rng.randrange(101)
+    temp = ((rng.choice([-50.0, 0.0, 150.0]) if rng.random() < 0.15 else rng.randrange(-100, 500) / 10.0) if rng.random() < 0.8 else None) if sensor else None
+    damper = rng.choice([0, 100, rng.randrange(101)])
     sp = rng.randrange(10, 36) if sensor else None
     spill = rng.random() < 0.5
     a = s4.GroupStatusData(z, s4.GroupPowerState[pw], s4.GroupControlMethod[me], spill, True, sensor, s4.SensorBatteryStatus[bat], temp, damper, sp)
